@@ -289,7 +289,9 @@ func normalize(t *Term) *Term {
 				return normalize(&Term{Op: OpUn, Name: "!", Args: []*Term{x}, Pos: t.Pos, Typ: t.Typ, Val: t.Val})
 			}
 		}
-		if commutative[t.Name] && a.String() > b.String() {
+		if t.Name == "+" && (stringTerm(a) || stringTerm(b)) {
+			// string concatenation keeps its operand order
+		} else if commutative[t.Name] && a.String() > b.String() {
 			t.Args = []*Term{b, a}
 		} else if f, ok := flipCmp[t.Name]; ok && !commutative[t.Name] && (t.Name == ">" || t.Name == ">=") {
 			// canonical: only < and <=
@@ -450,6 +452,13 @@ func normalize(t *Term) *Term {
 		if t.Args[0].IsConst("false") {
 			return t.Args[2]
 		}
+		// a nested choice on the same condition collapses
+		if in := t.Args[1]; in.Op == OpIte && Eq(in.Args[0], t.Args[0]) {
+			return normalize(&Term{Op: OpIte, Args: []*Term{t.Args[0], in.Args[1], t.Args[2]}, Pos: t.Pos, Typ: t.Typ, Val: t.Val})
+		}
+		if in := t.Args[2]; in.Op == OpIte && Eq(in.Args[0], t.Args[0]) {
+			return normalize(&Term{Op: OpIte, Args: []*Term{t.Args[0], t.Args[1], in.Args[2]}, Pos: t.Pos, Typ: t.Typ, Val: t.Val})
+		}
 		// short-circuit booleans kept as data: c ? true : x is c || x, and so on
 		c, x, y := t.Args[0], t.Args[1], t.Args[2]
 		mkb := func(op string, a, b *Term) *Term {
@@ -598,4 +607,20 @@ var seqLen = &seqLenMarker{}
 func IsSeqLen(t *Term) bool {
 	t = StripConv(t)
 	return t != nil && t.Op == OpConst && t.Ctx == seqLen
+}
+
+func stringTerm(t *Term) bool {
+	t = StripConv(t)
+	if t.Op == OpConst && strings.HasPrefix(t.Name, "\"") {
+		return true
+	}
+	if t.Typ != nil {
+		if b, ok := t.Typ.Underlying().(*types.Basic); ok {
+			return b.Info()&types.IsString != 0
+		}
+	}
+	if t.Op == OpBin && t.Name == "+" && len(t.Args) == 2 {
+		return stringTerm(t.Args[0]) || stringTerm(t.Args[1])
+	}
+	return false
 }
